@@ -244,7 +244,7 @@ class SpecEval:
         if f == "feq":
             # C's == on floating-point values (not identity of the bit patterns: NaN, signed zeros)
             a, b = self.ev(n.args[0], env), self.ev(n.args[1], env)
-            return sym.uf("f_eq", sym.F, sym.F, sym.B)(a, b)
+            return sym.uf("f_eq", sym.F, sym.F, sym.B)(self.flt(a), self.flt(b))
         if f == "entry":
             if env["entry"] is None:
                 raise SpecError("entry() not available here")
